@@ -49,7 +49,7 @@ Definition hard_fail (o : lock_out) : bool :=
 Definition wf_api (s : st) (e : ev) : Prop :=
   match e with
   | ELock ks rv ce loie f o => valid s = true /\ fu s <= f
-  | ECommit _ | ERollback => pending s = false
+  | ECommit _ | ERollback | ERollbackLost _ => pending s = false
   | _ => True
   end.
 Definition wf_ev (s : st) (e : ev) : Prop := wf_api s e.
@@ -357,4 +357,56 @@ Lemma Inv_rollback s : Inv s -> pending s = false -> Inv (rollback s).
 Proof.
   intros HInv Hp. unfold rollback. destruct (valid s) eqn:Ev; simpl; auto. rewrite Hp.
   destruct (Inv_agg_cancel s HInv) as (H1 & H2 & H3). apply Inv_rollback_body; auto.
+Qed.
+
+Lemma Inv_rollback_body_l lost s : Inv s -> agg s = None -> Inv (rollback_body_l lost s).
+Proof.
+  intros (HI & HL & HC) Hag. unfold rollback_body_l.
+  set (thr := N.max (fu s) (cmaxc s)).
+  set (s' := set_store (run_task (TPessRb (minus (flags s) lost) thr) (store s)) s).
+  set (inner := if (cnt s =? 0)%Z then s
+                else match filter (fun k => memk k lost) (flags s) with [] => s' | rest => add_task (TPessRb rest thr) s' end).
+  assert (Ein : flags inner = flags s /\ cnt inner = cnt s /\ agg inner = agg s /\
+                forall p, In p (store inner) -> In p (store s) /\ (pess s && committer s = true -> cov_task inner p)).
+  { unfold inner. destruct (cnt s =? 0)%Z eqn:Ec.
+    - repeat split; auto. intros Hpc. apply andb_true_iff in Hpc. destruct Hpc as [B2 B3].
+      destruct (HI p H) as [[(B1 & _) Hc]|Ht]; auto. exfalso.
+      destruct p as [k [f'|]]; simpl in Hc; [|tauto].
+      destruct Hc as [[H1 H2]|(a0 & e & Ha0 & _ & _)]; [|congruence].
+      apply Z.eqb_eq in Ec. unfold cnt_ok, agg_len in HC. rewrite Hag, Ec in HC.
+      destruct (flags s); [inversion H1|]. unfold len in HC. simpl in HC. lia.
+    - assert (Hcore : forall p, In p (store s') -> In p (store s) /\
+                (pess s && committer s = true -> cov_task s' p \/
+                   exists k f', p = (k, Pess f') /\ In k (filter (fun k => memk k lost) (flags s)) /\ f' <= thr)).
+      { intros p Hp. simpl in Hp. apply run_task_In in Hp. destruct Hp as [Hin Hrel]. split; auto.
+        intros Hpc. destruct (HI p Hin) as [[(B1 & _) Hc]|Ht]; [|left; destruct Ht as (t & T1 & T2); exists t; auto].
+        destruct p as [k [f'|]]; simpl in Hc; [|tauto].
+        destruct Hc as [[H1 H2]|(a0 & e & Ha0 & _ & _)]; [|congruence].
+        right. exists k, f'. split; auto. split; auto. apply filter_In. split; auto.
+        destruct (memk k lost) eqn:Em; auto. exfalso.
+        rewrite releases_pessrb in Hrel; [discriminate| |exact H2].
+        apply minus_In. split; auto. apply memk_false; auto. }
+      destruct (filter (fun k => memk k lost) (flags s)) as [|r0 rr] eqn:Er.
+      + repeat split; auto; try (apply Hcore; auto).
+        intros Hpc. destruct (Hcore p H) as [_ Hc]. destruct (Hc Hpc) as [Hc'|(k & f' & _ & [] & _)]. exact Hc'.
+      + repeat split; auto; try (apply (Hcore p); auto).
+        intros Hpc. simpl in H. destruct (Hcore p H) as [_ Hc]. destruct (Hc Hpc) as [Hc'|(k & f' & E & Hk & Hle)].
+        * apply cov_task_add. exact Hc'.
+        * subst p. apply cov_task_new. apply releases_pessrb; auto. }
+  destruct Ein as (E1 & E2 & E3 & E5).
+  destruct (pess s && committer s) eqn:Epc.
+  - destruct (ka_ops_fields inner ka_close) as (K1&K2&K3&K4&K5&K6&K7&K8&K9&K10&_); auto.
+    apply (Inv_of_tasks0 s); simpl; try congruence.
+    intros p Hp. simpl in Hp. rewrite K1 in Hp. destruct (E5 p Hp) as [_ Hc]. destruct (Hc eq_refl) as (t & T1 & T2).
+    exists t. simpl. rewrite K9. auto.
+  - apply (Inv_of_tasks0 s); simpl; auto.
+    intros p Hp. simpl in Hp. destruct (HI p Hp) as [[(B1 & B2 & B3) _]|Ht].
+    + rewrite B2, B3 in Epc. discriminate.
+    + destruct Ht as (t & T1 & T2). exists t; auto.
+Qed.
+
+Lemma Inv_rollback_l lost s : Inv s -> pending s = false -> Inv (rollback_l lost s).
+Proof.
+  intros HInv Hp. unfold rollback_l. destruct (valid s) eqn:Ev; simpl; auto. rewrite Hp.
+  destruct (Inv_agg_cancel s HInv) as (H1 & H2 & H3). apply Inv_rollback_body_l; auto.
 Qed.
